@@ -8,15 +8,22 @@ Open Scope N_scope.
 Lemma link_local_zero : link_local 0 = false.
 Proof. reflexivity. Qed.
 
-(* what the property text says a received ARP packet must be answered with *)
-Definition rx_answer (c : cfg) (s : state) (p : arp_pkt) : option frame :=
-  if closed s then None
+(* what the property text says a received ARP packet must be answered with: nothing, a frame at once (the
+   probe-reject), or a spoof reply that is decided now and written by RxReply *)
+Inductive rx_act := RxNone | RxNow (f : frame) | RxQueue (f : frame).
+
+Definition rx_answer (c : cfg) (s : state) (p : arp_pkt) : rx_act :=
+  if closed s then RxNone
   else if sp_is_probe p
-  then (if sp_reject_cond c (offer_of (psmac p) (offers s)) p then Some (probe_reject c p) else None)
-  else (if sp_asks_router c p && hunted s (psmac p) then Some (spoof_reply c p) else None).
+  then (if sp_reject_cond c (offer_of (psmac p) (offers s)) p then RxNow (probe_reject c p) else RxNone)
+  else (if sp_asks_router c p && hunted s (psmac p) then RxQueue (spoof_reply c p) else RxNone).
 
 Theorem rx_spec : forall c s p,
-  step c s (RxArp p) = match rx_answer c s p with Some f => wr2 s f | None => (s, []) end.
+  step c s (RxArp p) = match rx_answer c s p with
+                       | RxNone => (s, [])
+                       | RxNow f => wr2 s f
+                       | RxQueue f => (set_rxq s (rxq s ++ [f]), [])
+                       end.
 Proof.
   intros c s p. simpl. unfold rx_arp, rx_answer. destruct (closed s); [reflexivity|].
   unfold classify, sp_is_probe, sp_reject_cond, sp_is_probe, sp_asks_router, hunted, IP4_ZERO.
@@ -157,13 +164,13 @@ Example run_nonvacuous :
   let c := wit_cfg in
   outputs c init_state
     [StartHunt wit_a1; Lookup 0; Check 0; Send 0;
-     RxArp (mkPkt 1 wit_m1 wit_m1 3232235522 0 3232235531);
+     RxArp (mkPkt 1 wit_m1 wit_m1 3232235522 0 3232235531); RxReply 0;
      Lookup 0; StopHunt wit_m1; Check 0; Send 0;           (* decided before StopHunt: one more forged frame *)
      Lookup 0; Check 0; Send 0;                            (* next iteration: restore, loop returns *)
      Lookup 0; Check 0; Send 0;
      ApiAnnounceTo wit_m2 3232235531; ApiRequest 3232235522]
   = [[]; []; []; [announce c wit_m1];
-     [mkFrame 2 wit_m1 (host_mac c) (router_ip c) wit_m1 3232235522];
+     []; [mkFrame 2 wit_m1 (host_mac c) (router_ip c) wit_m1 3232235522];
      []; []; []; [announce c wit_m1];
      []; []; [restore c wit_m1];
      []; []; [];
